@@ -133,7 +133,7 @@ def decide(prop, tier, seed, jobs, t0):
                    "discharged": 0, "solver_ms": r["solver_ms"], "queries": r["queries"]})
         if r["out_of_reach"]:
             undecided.append({"obligation": r["target"], "why": "out of reach: " + "; ".join(r["out_of_reach"][:3])})
-        if r["completed_paths"] == 0 and not r["out_of_reach"]:
+        if r["completed_paths"] == 0 and not r["out_of_reach"] and not any(o["verdict"] != "proved" for o in r["obligations"]):
             errors.append("%s: no path reached the end of the function (vacuous contract?)" % r["target"])
         for oid, obs in sorted(per_id.items()):
             for o in obs:
@@ -172,7 +172,10 @@ def decide(prop, tier, seed, jobs, t0):
         if k.get("status") != "known":
             continue
         doc = dict(k.get("replay") or {})
-        if doc:
+        if k.get("native"):
+            out = run_native(["-m", "ground.run", "--call", k["native"]])
+            still = out.returncode == 0 and out.stdout.strip().splitlines()[-1:] == ["true"]
+        elif doc:
             doc["property"] = prop
             path = write_replay(prop + "-known", doc)
             code, res = replay_file(path)
@@ -209,7 +212,12 @@ def decide(prop, tier, seed, jobs, t0):
                "inputs": o["model"], "path": o["path"], "solver": o["solver"], "detail": o["detail"],
                "exception": o["id"].split("/safety/")[-1].split("@")[0] if kind == "safety" else None}
         path = write_replay(prop, doc)
-        code, res = replay_file(path)
+        if o["kind"] in ("invariant", "step", "frame", "termination", "call-requires", "spec-assert"):
+            # obligations about an arbitrary loop iteration / call site: the solver's state is not an
+            # input of a public function, so there is nothing to replay natively
+            code, res = 0, {"note": "loop/call-site obligation: no native replay", "solver_state": o["model"]}
+        else:
+            code, res = replay_file(path)
         doc["native"] = res
         with open(os.path.join(VERIF, path), "w") as fh:
             json.dump(doc, fh, indent=1, sort_keys=True, default=str)
@@ -271,8 +279,11 @@ def decide(prop, tier, seed, jobs, t0):
         "assumptions": propinfo.ASSUMPTIONS + info.get("assumptions", []),
         "wall_s": round(wall, 2), "violations": nviol,
     }
-    os.makedirs(os.path.join(VERIF, "evidence"), exist_ok=True)
-    with open(os.path.join(VERIF, "evidence", prop + ".json"), "w") as fh:
+    evdir = os.path.join(VERIF, "evidence")
+    if os.path.realpath(repo.REPO) != "/repo":
+        evdir = os.path.join(VERIF, "build", "evidence-scratch")     # scratch copies never touch committed evidence
+    os.makedirs(evdir, exist_ok=True)
+    with open(os.path.join(evdir, prop + ".json"), "w") as fh:
         json.dump(ev, fh, indent=1, default=str)
     print("%s tier=%s obligations=%d discharged=%d (solver %d/%d, ground %d/%d) violations=%d undecided=%d wall=%.1fs exit=%d" % (
         prop, tier, total, discharged, ob_proved, ob_total, g_ok, g_total, nviol, len(undecided), wall, exit_code))
